@@ -1,6 +1,7 @@
 package verifbench
 
 import (
+	"connectrpc.com/vanguard"
 	"runtime/pprof"
 	"encoding/json"
 	"fmt"
@@ -37,6 +38,10 @@ func TestDump(t *testing.T) {
 		}
 	} else if err := json.Unmarshal(ff.Case, &sc); err != nil {
 		t.Fatal(err)
+	}
+	if os.Getenv("VERIF_DUMP_POISON") != "" {
+		vanguard.VerifPoolEnable(true, os.Getenv("VERIF_DUMP_POISON") == "fifo")
+		defer vanguard.VerifPoolDisable()
 	}
 	out := runScenario(&sc)
 	fmt.Printf("BuildErr=%q ConfigErr=%q Panic=%q\n", out.BuildErr, out.ConfigErr, out.Panic)
